@@ -51,7 +51,8 @@ CLAIMS = {
        "(only the message may change); the per-value records of `empty` on a variable / filter carry the final (negated) status. NOT covered: "
        "the records written by filters, whole-run well-nesting (only each single start / end step is decided), "
        "the JSON rendering."
-       "Added later: the record hooks of the three scopes are pure delegations (nothing else is written when a record passes through).",
+       "Added later: the record hooks of the three scopes are pure delegations (nothing else is written when a record passes through)."
+       " Added last: the rule_status obligation of C04 (status of a name referenced as a clause = first non-SKIP definition) also runs here.",
   design="4/C02"),
  "C03": dict(
   text="Bounded model checking of negation on the unary path at leaf level (not_operation / inverse_operation laws for all 9 unary "
@@ -70,7 +71,8 @@ CLAIMS = {
        "query-in outcome under the flag: new difference = reverse_diff(old difference, one operand list), Success iff empty; reverse_diff "
        "keeps exactly the elements not in the old difference. The clause evaluator hands binary_operation the clause's OWN operator and the "
        "flag `operator-level not XOR prefix not`, nothing else."
-       "Added later: the prefix `not` of a parameterised rule call (found ignored: D16, fixed) - the call obligation has the negation flag symbolic.",
+       "Added later: the prefix `not` of a parameterised rule call (found ignored: D16, fixed) - the call obligation has the negation flag symbolic."
+       " Added last: the binary_operation value -> status obligation (a comparison that is SKIP stays SKIP under every negation) also runs here; replay with right-hand queries that select nothing.",
   design="4/C03"),
  "C04": dict(
   text="Bounded model checking that the real CNF combinator returns the same status for a CNF and for any permutation of its "
@@ -83,7 +85,8 @@ CLAIMS = {
        "decides, SKIP if all are; the result is stored under that name and returned). NOT covered: the traversal that fills those caches, key "
        "capture (add_variable_capture_key), parameterised rules."
        "Added later: the pass-through methods of RootScope / BlockScope / ValueScope (record hooks, rule_status, find_parameterized_rule ...) make exactly one call with the arguments given and write nothing - no memo table is fed from a record passing through."
-       "Added later: literal / cached answers of resolve_variable write nothing; an unresolvable key variable is an error of the query (orderings that must stay errors); the query dispatcher runs here too.",
+       "Added later: literal / cached answers of resolve_variable write nothing; an unresolvable key variable is an error of the query (orderings that must stay errors); the query dispatcher runs here too."
+       " Added last: rule_status answers SKIP only after ALL definitions of the name were evaluated and are SKIP (the walk ends early only on a non-SKIP status); replay with unguarded definitions that evaluate to SKIP in both orders.",
   design="4/C04"),
  "C05": dict(
   text="Order-independence, decided on MIR (z3+cvc5): inside one process image the only run-to-run variable is the iteration order of "
@@ -181,7 +184,8 @@ CLAIMS = {
        "report, the serialised JSON. KNOWN FINDING (recorded, not repaired): a rule NAME defined several times with different statuses is "
        "listed in more than one of the three lists."
        "Added later: the report builder's clause reports show the visited record's own from / to values and operator pair; binary_operation records the left / right value of the outcome being reported; the partition replay checks the status implied by the three sets (the property's own sentence) also for rule names defined twice."
-       "Added later: a keys filter's per-key comparisons are recorded under a Filter record (D13, fixed); binary records carry the clause's own messages.",
+       "Added later: a keys filter's per-key comparisons are recorded under a Filter record (D13, fixed); binary records carry the clause's own messages."
+       " Added last: every Unary record carries the clause's captured message (record_unary_clause's closure takes nothing from and stores nothing into its captures between values); replay with several failing values per clause.",
   design="4/C09"),
  "C10": dict(
   text="Bounded symbolic execution (MIR, callees modelled, value identities tracked; z3+cvc5) of the loader -> evaluator conversion "
@@ -222,7 +226,8 @@ CLAIMS = {
        "sets disjoint), aliases and non-string keys, key/list order, libyaml itself. No Kani harness serves this property."
        "Added later: at the libyaml boundary the scalar's bytes are from_raw_parts(scalar.value, scalar.length) of the same event (not a C-string reading); replay with embedded NUL characters through validate and test."
        "Added later: handle_sequence_end closes every sequence - also an empty one - the same way (short-form tag folding); the MarkedValue conversion obligation of C10 also runs here."
-       " Added last: every-known-tag-has-a-long-form (see C08).",
+       " Added last: every-known-tag-has-a-long-form (see C08)."
+       " Added last: build_data_file hands the loader the file's FULL text (C10's obligation) also runs here; replay with block scalars at the end of the file.",
   design="0b/C11"),
  "C12": dict(
   text="Bounded symbolic execution (MIR, callees modelled, value identities tracked; z3+cvc5) of the three validate loops that pair "
